@@ -114,7 +114,11 @@ func (sto *unionStorage) StatBlobs(ctx context.Context, blobs []blob.Ref, f func
 	}
 	// need to dedup the blobs
 	maybeDup := make(chan blob.SizedRef)
-	errCh := make(chan error, 1)
+	errCh := make(chan error, len(sto.subsets))
+	// done is closed when StatBlobs returns, so that subsets still
+	// reporting blobs do not block (or send on a closed channel).
+	done := make(chan struct{})
+	defer close(done)
 	var wg sync.WaitGroup
 	var any bool
 	for _, s := range sto.subsets {
@@ -122,8 +126,12 @@ func (sto *unionStorage) StatBlobs(ctx context.Context, blobs []blob.Ref, f func
 			any = true
 			wg.Go(func() {
 				if err := bs.StatBlobs(ctx, blobs, func(sr blob.SizedRef) error {
-					maybeDup <- sr
-					return nil
+					select {
+					case maybeDup <- sr:
+						return nil
+					case <-done:
+						return errors.New("union: StatBlobs already returned")
+					}
 				}); err != nil {
 					errCh <- err
 				}
@@ -133,11 +141,9 @@ func (sto *unionStorage) StatBlobs(ctx context.Context, blobs []blob.Ref, f func
 	if !any {
 		return errors.New("union: No BlobStatter reader configured")
 	}
-
-	var closeChanOnce sync.Once
 	go func() {
 		wg.Wait()
-		closeChanOnce.Do(func() { close(maybeDup) })
+		close(maybeDup)
 	}()
 
 	seen := make(map[blob.Ref]struct{}, len(blobs))
@@ -146,11 +152,17 @@ func (sto *unionStorage) StatBlobs(ctx context.Context, blobs []blob.Ref, f func
 		case <-ctx.Done():
 			return ctx.Err()
 		case err := <-errCh:
-			closeChanOnce.Do(func() { close(maybeDup) })
 			return err
 		case sr, ok := <-maybeDup:
 			if !ok {
-				return nil
+				// All subsets are done; report a failure of any of them
+				// rather than an incomplete result.
+				select {
+				case err := <-errCh:
+					return err
+				default:
+					return nil
+				}
 			}
 			if _, ok = seen[sr.Ref]; !ok {
 				seen[sr.Ref] = struct{}{}
